@@ -137,12 +137,13 @@ def Lit.asBits (d : Defs) : Lit → List Bool
     match d.struct? name with
     | some fs => lfs.asBitsInOrder d fs
     | none => []
-  | .enum name variant _ fields =>
+  | .enum name variant isUnit fields =>
     match d.enum? name with
     | some variants =>
       match variants.find? variant with
       | some (i, _, _) =>
-        let payload := fields.asBits d
+        -- `VariantLiteral::Unit` has no fields
+        let payload := if isUnit then [] else fields.asBits d
         natToBits i variants.tagSize ++ payload ++ List.replicate (variants.maxPayload - payload.length) Bool.false
       | none => []
     | none => []
